@@ -641,3 +641,132 @@ def rule_builder_bal(cx, tier):
         r.sample({"fn": fn.qual, "sites": {line_of(fn, b): f"{e[0]}{'+' if (e[1] or 0) > 0 else ('-' if e[1] else '|catch-entry')}" for b, e in ev.items()},
                   "states": n, "verdict": verdict})
     return r
+
+
+# ---------------------------------------------------------------------------------------------
+# R-FUNC-SKIP (C05): the body of a nested function is never executed inline
+
+def rule_func_skip(cx, tier):
+    r = RuleResult("R-FUNC-SKIP", "a nested function's frame (NewFrame .. Return, emitted by compile_frame) is always "
+                                  "preceded by an instruction that makes the enclosing code skip it: on every path through "
+                                  "compile_function to the compile_frame call a `Function` op (which carries the body's "
+                                  "size) or a `Jump` is emitted, followed by the placeholder for the distance")
+    from .enc import Writer
+    w = Writer(cx)
+    fn = cx.need_fn(COMP + "compile_function")
+    cfg = cx.cfg(fn)
+    frames = [c for c in fn.calls() if c.short == COMP + "compile_frame"]
+    require(frames, "R-FUNC-SKIP: compile_function no longer calls compile_frame")
+    skip_bbs = set()
+    for c in fn.calls():
+        if c.short in (COMP + "push_op", COMP + "push_op_without_span") and len(c.args) > 1:
+            ops = w.op_variants(fn, c.args[1])
+            if ops and ops <= {"Function", "Jump"}:
+                # followed by a placeholder
+                nxt = fn.call_at(c.target) if c.target is not None else None
+                hops = 0
+                while nxt is not None and hops < 4 and nxt.short != COMP + "push_offset_placeholder":
+                    nxt = fn.call_at(nxt.target) if nxt.target is not None else None
+                    hops += 1
+                if nxt is not None and nxt.short == COMP + "push_offset_placeholder":
+                    skip_bbs.add(c.bb)
+    r.analysed = {"compile_frame_calls": len(frames), "skip_emission_sites": len(skip_bbs)}
+    for c in frames:
+        r.instances += 1
+        r.nontrivial += 1
+        p = cfg.find_path(0, lambda b: b == c.bb, avoid=skip_bbs, include_src_succs=False) if 0 not in skip_bbs else None
+        r.sample({"fn": fn.qual, "compile_frame_line": c.line, "always_skipped": p is None})
+        if p is not None:
+            r.add(Finding("R-FUNC-SKIP", fn.qual, "inline-body",
+                          "compile_frame can be reached without emitting a `Function` op or a `Jump` in front of the "
+                          "function's body: a function literal whose value is unused (an expression statement) is compiled "
+                          "inline, and its NewFrame / body / Return run as part of the enclosing function", fn.file, c.line,
+                          [f"bb{b} {fn.file}:{line_of(fn, b)}" for b in p][-30:]))
+    return r
+
+
+# ---------------------------------------------------------------------------------------------
+# R-FRAME-RETURN (C05): every compiled frame ends in a Return
+
+def rule_frame_return(cx, tier):
+    r = RuleResult("R-FRAME-RETURN", "compile_frame emits a final `Return` on every non-error path; the only paths that may "
+                                     "skip it are those decided by the AST of the block's own last expression (an explicit "
+                                     "`return`), never by mutable compiler state that nested nodes also update -- otherwise a "
+                                     "function can end without a Return and execution runs into the enclosing code")
+    from .enc import Writer
+    from .narrow import Sym, leaves_of, _phi_names
+    w = Writer(cx)
+    fn = cx.need_fn(COMP + "compile_frame")
+    cfg = cx.cfg(fn)
+    blocks = [c for c in fn.calls() if c.short == COMP + "compile_block"]
+    require(blocks, "R-FRAME-RETURN: compile_frame no longer calls compile_block")
+    rets = set()
+    for c in fn.calls():
+        if c.short in (COMP + "push_op", COMP + "push_op_without_span") and len(c.args) > 1:
+            if w.op_variants(fn, c.args[1]) == {"Return"}:
+                rets.add(c.bb)
+    require(rets, "R-FRAME-RETURN: no emission of Op::Return in compile_frame")
+    err = w._error_blocks(fn)
+    exits = set(cfg.exits)
+    sym = Sym(cx, fn)
+    r.analysed = {"return_emission_sites": len(rets)}
+    for c in blocks:
+        r.instances += 1
+        r.nontrivial += 1
+        p = cfg.find_path(c.bb, lambda b: b in exits, avoid=rets | err)
+        verdict = "always emitted"
+        if p is not None:
+            # the decisions that skip the emission: switches on the path whose taken edge can no longer reach a Return
+            # emission while another edge still can
+            state, ast = set(), set()
+            for i, b in enumerate(p[:-1]):
+                t = fn.blocks[b].term
+                if t[0] != "switch":
+                    continue
+                taken = p[i + 1]
+                others = [s2 for s2 in cfg.succ[b] if s2 != taken]
+                if cfg.reachable({taken}, err) & rets:
+                    continue
+                if not any(cfg.reachable({o}, err) & rets for o in others):
+                    continue
+                roots = _param_roots(cx, fn, op_base(t[1]))
+                for rt in roots:
+                    (state if rt == 1 else ast).add(fn.local_name(rt) or f"arg{rt}")
+                if not roots:
+                    state.add("a value that does not derive from the frame's parameters")
+            state, ast = sorted(state), sorted(ast)
+            verdict = "skipped by AST test" if ast and not state else "skipped by compiler state"
+            if state or not ast:
+                r.add(Finding("R-FRAME-RETURN", fn.qual, "skip:" + (",".join(state)[:80] or "unconditional"),
+                              "compile_frame can finish a frame without emitting `Return`, decided by "
+                              f"{', '.join(state) or 'nothing'}: state that nested nodes update too (a `return` nested in the "
+                              "last expression), so a function like `|c| if c then return` ends without a Return and "
+                              "execution continues in the enclosing code", fn.file, c.line,
+                              [f"bb{b} {fn.file}:{line_of(fn, b)}" for b in p][-30:]))
+        r.sample({"fn": fn.qual, "verdict": verdict})
+    return r
+
+
+def _param_roots(cx, fn, local, depth=0, seen=None):
+    """parameters (by index) that a value derives from, through copies, casts, refs, aggregates and call arguments"""
+    seen = set() if seen is None else seen
+    out = set()
+    if local is None or local in seen or depth > 14:
+        return out
+    seen.add(local)
+    if 1 <= local <= fn.argc:
+        return {local}
+    from ..mir import rv_places
+    for d in cx.du(fn).defs.get(local, []):
+        if d[2] in ("assign", "partial"):
+            for pl in rv_places(d[3]):
+                out |= _param_roots(cx, fn, pl[0], depth + 1, seen)
+        elif d[2] == "call":
+            for a in d[3].args:
+                l = op_base(a)
+                if l is not None:
+                    out |= _param_roots(cx, fn, l, depth + 1, seen)
+            # values captured by closure arguments
+            for cl in (d[3].cl or ()):
+                pass
+    return out
